@@ -351,6 +351,7 @@ impl Sink {
             for f in fails {
                 match f.prop {
                     "C06" | "C07" | "C16" => kept.push(monitors::Fail { prop: "C16", msg: f.msg }),
+                    "C05" if f.msg.contains("cut short by a panic") => kept.push(f),
                     "C02" if f.msg.contains("recorded sizes") => {
                         kept.push(monitors::Fail { prop: "C02", msg: f.msg.clone() });
                         kept.push(monitors::Fail { prop: "C16", msg: f.msg });
